@@ -10,6 +10,9 @@ import (
 
 // pureLibrary: effect-free library functions outside the observer packages.
 var pureLibrary = map[string]bool{
+	"encoding/json.Marshal":                true, // a function of the value (maps are marshalled with sorted keys)
+	"strconv.FormatInt":                    true,
+	"strconv.FormatUint":                   true,
 	"go.yaml.in/yaml/v4.Marshal":           true, // rendering is a function of the document (the document is not modified)
 	"sigs.k8s.io/yaml.YAMLToJSON":          true,
 	"(net/http.Header).Get":                true,
